@@ -27,7 +27,8 @@ ABSENT_CLASS = "http://ex.org/C9"
 
 @st.composite
 def cases(draw):
-    g = draw(gg.general(inst_props=(RDF_TYPE, RDF_TYPE, RDF_TYPE, "http://ex.org/isA")))
+    big = draw(st.integers(0, 5)) == 0      # now and then more instances per class and higher cardinalities
+    g = draw(gg.general(max_nodes=12 if big else 7, max_stmts=48 if big else 30, inst_props=(RDF_TYPE, RDF_TYPE, RDF_TYPE, "http://ex.org/isA")))
     cfg = draw(gg.switches())
     cfg["instances_report_mode"] = "mixed"
     if draw(st.booleans()):
